@@ -54,6 +54,34 @@ class C18(F.Spec):
         n = 150 if tier == "quick" else 1500
         for i in range(n):
             yield self.gen(rng, i, big=(tier == "thorough" and i % 50 == 0))
+        for i in range(8 if tier == "quick" else 60):
+            yield self.gen_stale(rng, i)
+
+    def gen_stale(self, rng, i):
+        """the spare slot still holds the genuine signed image of an earlier update; a copy with one bit changed is downloaded whole
+        while the flash refuses to be erased or written (all operations from the k-th, or a single one): what stays in the slot
+        would verify - but it is not what was downloaded"""
+        m, ub = rng.choice([2, 4, 5, 6]), rng.choice([0, 1])
+        L = rng.choice([rng.randint(5000, 9000), 8192 + 528, rng.randint(9000, 20000)])
+        slot = SLOTS[m][0] if ub == 0 else SLOTS[m][1]
+        ops = ["map %d %d" % (m, ub), "start", "imgfill %d %d" % (L - 528, rng.randint(1, 1 << 30)), "imgadd " + rb(rng, 512).hex(),
+               "imgadd " + GOOD_FOOTER.hex(), "sign", "slotload %d" % slot]
+        flip = rng.randrange(L - 528) if i % 2 == 0 else L - 528 + rng.randrange(512)
+        ops.append("flip %d %02x" % (flip, 1 << rng.randrange(8)))
+        hdr = b"HTTP/1.1 200 OK\r\nServer: test\r\nContent-Type: application/octet-stream\r\nContent-Length: %d\r\n\r\n" % L
+        fault = "faultall" if i % 4 != 3 else "fault"
+        ops.append("faultall %d" % rng.choice([1, 1, 2, 3]) if fault == "faultall" else "fault %d %d" % (rng.randint(1, 4), rng.choice([0, 1])))
+        ops.append("seg %s 0 0" % hdr.hex())
+        pos = 0
+        while pos < L:
+            k = min(L - pos, rng.choice([536, 1460, 1460, 2920, 4096]))
+            ops.append("seg - %d %d" % (pos, k))
+            pos += k
+        ops.append("slotfnv %d %d" % (slot, L))
+        meta = {"map": m, "ub": ub, "L": L, "ikind": "flipbody" if i % 2 == 0 else "flipsig", "hkind": "ok", "dkind": "exact", "fault": fault,
+                "hdr": hdr.hex(), "footer": GOOD_FOOTER.hex(), "flip": flip, "slot": slot,
+                "tags": ["map:%d" % m, "img:flip", "hdr:ok", "dl:exact", "fault:%s" % fault, "stale:1"]}
+        return F.Case("stale%d" % i, ops, meta)
 
     def gen(self, rng, i, big=False):
         m = rng.choice([2, 3, 4, 4, 5, 6, 6, 0, 1, 7])
@@ -84,6 +112,11 @@ class C18(F.Spec):
             footer = GOOD_FOOTER[:6] + bytes([f6, f6 * 256 - K]) + GOOD_FOOTER[8:]
             ops += ["imgtrunc 16", "imgfill %d %d" % (K - 512, rng.randint(1, 1 << 30)), "imgadd " + footer.hex()]
             L += K - 512
+        stale = False
+        if ikind in ("flipbody", "flipsig") and L > 528 and m in SLOTS and rng.random() < .5:
+            # the spare slot still holds the genuine signed image of an earlier update; what is downloaded now differs from it
+            ops.append("slotload %d" % (SLOTS[m][0] if ub == 0 else SLOTS[m][1]))
+            stale = True
         flip = None
         if ikind == "flipbody" and L > 528:
             flip = rng.randrange(L - 528)
@@ -138,6 +171,8 @@ class C18(F.Spec):
         cuts = sorted(rng.sample(range(1, len(hdr)), min(rng.choice([0, 0, 1, 2, 3]), len(hdr) - 1)))
         hparts = [hdr[a:b] for a, b in zip([0] + cuts, cuts + [len(hdr)])]
         fault = rng.choice([None] * 5 + ["fault", "faultall"])
+        if stale:
+            fault = rng.choice(["faultall", "faultall", "fault", None])     # (flash that fails: the stale content stays)
         if fault == "fault":
             ops.append("fault %d %d" % (rng.randint(1, 6), rng.choice([0, 1])))
         elif fault == "faultall":
@@ -161,7 +196,7 @@ class C18(F.Spec):
             ops.append("slotfnv %d %d" % (slot, L))
         meta = {"map": m, "ub": ub, "L": L, "ikind": ikind, "hkind": hkind, "dkind": dkind, "fault": fault, "hdr": hdr.hex(),
                 "footer": footer.hex(), "flip": flip, "slot": slot,
-                "tags": ["map:%d" % m, "img:" + ikind, "hdr:" + hkind, "dl:" + dkind, "fault:%s" % fault]}
+                "tags": ["map:%d" % m, "img:" + ikind, "hdr:" + hkind, "dl:" + dkind, "fault:%s" % fault, "stale:%d" % stale]}
         return F.Case("gen%d" % i, ops, meta)
 
     # ---- what the ops say (kept valid under shrinking: recomputed from the ops themselves)
